@@ -177,6 +177,45 @@ example : ([⟨4, 4⟩, ⟨4, 0⟩, ⟨0, 2⟩] : List Range).Perm [⟨4, 0⟩, 
     ∀ r ∈ ([⟨4, 4⟩, ⟨4, 0⟩, ⟨0, 2⟩] : List Range), 0 ≤ r.len := by
   decide
 
+/-! ### large inputs and the element-count shortcut (round-5 seeded change) -/
+
+/-- the driver computes the model's `gaps` on a merge-sorted permutation of the input (the model's own insertion sort
+    is quadratic on unsorted lists of 10^5 ranges): same value, by `gaps_perm` -/
+theorem gaps_presorted (total : Range) (rs : List Range) :
+    FqModel.GapsTree.gapsPresorted total rs = gaps total rs := by
+  unfold FqModel.GapsTree.gapsPresorted
+  split
+  · rename_i h
+    have hlen : ∀ r ∈ rs, 0 ≤ r.len := by
+      intro r hr
+      have := (List.all_eq_true.mp h) r hr
+      simpa using this
+    exact (gaps_perm total rs _ hlen (List.mergeSort_perm rs FqModel.GapsTree.leStart).symm).symm
+  · rfl
+
+/-- gaps_presorted on an unsorted list with equal starts whose lengths are all non-negative (the sorted branch;
+    `List.mergeSort` is defined by well-founded recursion and does not reduce in the kernel, hence the rewrite) -/
+example : ([⟨6, 3⟩, ⟨4, 4⟩, ⟨4, 0⟩, ⟨0, 2⟩] : List Range).all (fun r => decide (0 ≤ r.len)) = true ∧
+    FqModel.GapsTree.gapsPresorted ⟨0, 12⟩ [⟨6, 3⟩, ⟨4, 4⟩, ⟨4, 0⟩, ⟨0, 2⟩] = [⟨2, 2⟩, ⟨9, 3⟩] := by
+  rw [gaps_presorted]; decide
+
+/-- Regression witness of a seeded change ("an array of >= 256 scalars is ONE range first.start..last.stop — fewer
+    ranges to sort"): the hull of the elements is not a cover.  Three scalar elements 2:3 7:2 12:4 of a 20-bit buffer:
+    from the elements `ranges.Gaps` yields the two holes between them as gap fields, from their hull it does not, and
+    the bits then in no leaf and in no gap field are EXACTLY the bits of the holes (none of them a one-bit hole, so the
+    known finding does not excuse them).  The threshold itself is out of reach of `decide`-sized examples and of short
+    random programs: run `big` of the correspondence decodes arrays/structs of 31..65537 leaves with holes. -/
+theorem array_hull_is_not_cover_witness :
+    let total : Range := ⟨0, 20⟩
+    let leaves : List Range := [⟨2, 3⟩, ⟨7, 2⟩, ⟨12, 4⟩]
+    FqModel.GapsTree.hullOf leaves = [⟨2, 14⟩] ∧
+    gaps total leaves = [⟨0, 2⟩, ⟨5, 2⟩, ⟨9, 3⟩, ⟨16, 4⟩] ∧
+    gaps total (FqModel.GapsTree.hullOf leaves) = [⟨0, 2⟩, ⟨16, 4⟩] ∧
+    (List.range 20).filter (fun (b : Nat) =>
+      !covered leaves (b : Int) && !covered (gaps total (FqModel.GapsTree.hullOf leaves)) (b : Int)) = [5, 6, 9, 10, 11] ∧
+    (∀ b ∈ ([5, 6, 9, 10, 11] : List Int), oneBitHole leaves b = false ∧ covered (gaps total leaves) b = true) := by
+  decide
+
 /-! ## the system level: `D.FillGaps` on the decode tree of any decoder program -/
 
 section tree
